@@ -191,7 +191,7 @@ func c07Grammar(thorough bool) []c07Input {
 		return []byte("\x01{" + strings.Join(parts, ",") + "}")
 	}
 	routeFields := []string{"NodeID", "UpdateID", "UpdateEpoch", "UpdateSequence", "Connections", "ForwardingNode", "SuspectedDuplicate"}
-	subst := []string{`null`, `true`, `-1`, `18446744073709551616`, `1.5`, `"x"`, `""`, `[]`, `{}`, `{"v":"x"}`, `{"v":null}`, `{"v":-1}`, `{"v":0}`, `{"":1}`, `{"v":1e308}`}
+	subst := []string{`null`, `true`, `7`, `-1`, `18446744073709551616`, `1.5`, `"x"`, `""`, `[]`, `{}`, `{"v":"x"}`, `{"v":null}`, `{"v":-1}`, `{"v":0}`, `{"":1}`, `{"v":1e308}`}
 	for _, fld := range routeFields {
 		add("route-field-absent", "route without "+fld, baseRoute(nil, fld))
 		for _, v := range subst {
@@ -204,6 +204,20 @@ func c07Grammar(thorough bool) []c07Input {
 	add("route-absurd", "update naming the victim with a newer epoch", baseRoute(map[string]string{"NodeID": `"v"`, "UpdateEpoch": `"@VEPOCH+1@"`, "Connections": `{}`}, ""))
 	add("route-absurd", "update naming the victim with an older epoch", baseRoute(map[string]string{"NodeID": `"v"`, "UpdateEpoch": `1`, "Connections": `{}`}, ""))
 	add("route-forged-duplicate-notice", "forged suspected-duplicate notice carrying the victim's epoch", baseRoute(map[string]string{"NodeID": `"v"`, "UpdateEpoch": `"@VEPOCH+1@"`, "SuspectedDuplicate": `"@VEPOCH@"`}, ""))
+	// suspected-duplicate notices about every kind of origin: the peer itself, a known third node, the victim, a
+	// node nobody has heard of
+	for _, nid := range []string{"evil", "g", "v", "ghost"} {
+		for _, sd := range []string{`1`, `"@VEPOCH@"`, `18446744073709551615`} {
+			for _, ep := range []string{`1000`, `"@VEPOCH@"`, `"@VEPOCH+1@"`} {
+				cls := "route-duplicate-notice"
+				if nid == "v" && sd == `"@VEPOCH@"` && ep != `"@VEPOCH@"` {
+					cls = "route-forged-duplicate-notice"
+				}
+				add(cls, fmt.Sprintf("suspected-duplicate notice about %s, duplicate epoch %s, update epoch %s", nid, sd, ep),
+					baseRoute(map[string]string{"NodeID": `"` + nid + `"`, "UpdateID": `"u-n"`, "UpdateEpoch": ep, "SuspectedDuplicate": sd}, ""))
+			}
+		}
+	}
 	add("route-absurd", "forwarder changes to g", baseRoute(map[string]string{"ForwardingNode": `"g"`}, ""))
 	add("route-absurd", "forwarder is the victim", baseRoute(map[string]string{"ForwardingNode": `"v"`}, ""))
 	add("route-absurd", "stops listing the victim", baseRoute(map[string]string{"Connections": `{"zz":1}`}, ""))
